@@ -165,6 +165,7 @@ type HarnessSpec struct {
 	ExecSecs  int // budget for symbolic execution (default 300 s)
 	Note      string // bounds in words
 	GoQueue   bool
+	AbstractBig bool // allocations of non-constant size become length-abstracted arrays (contents not tracked)
 	NoDedupe  bool // map range: do not de-duplicate keys (only for idempotent set-algebra loops, stated as a cut)
 	Solvers   []string
 	CaseGen   func() []map[string]int64 `json:"-"` // case split given as an explicit list (alternative to Split)
@@ -256,6 +257,7 @@ func newEngine(l *loaded, hs HarnessSpec) *Engine {
 	}
 	e.goQueue = hs.GoQueue
 	e.rangeNoDedupe = hs.NoDedupe
+	e.abstractBig = hs.AbstractBig
 	without := map[string]bool{}
 	for _, w := range hs.Without {
 		without[w] = true
